@@ -73,9 +73,8 @@ class AbstractDeme(ABC):
 
     @property
     def centroid(self) -> np.ndarray:
-        if self._centroid is None:
-            self._centroid = compute_centroid(self.current_population)
-        return self._centroid
+        # Computed on demand: a memoised value goes stale as soon as the population moves.
+        return compute_centroid(self.current_population)
 
     @property
     def history(self) -> list[list[Individual]]:
